@@ -7,12 +7,15 @@
    without an xn-- label): C10_an, C10_idem_an, C10_case_an.  Corrected full-strength statements, not proved:
    C10_idem_statement2, C10_case_statement2 (Proofs/Idna_C10b_Stmt.v); see theorem_notes in tools/props_d/C10.py.
    Idempotence is PROVED for every input outside Known_C10_long (C10_idem3 : C10_idem_statement3 of
-   Proofs/Idna_C10c_Idem.v = C10_idem_statement2 with two more sampled adapter premises, AdapterUSV and MapPrefix). *)
+   Proofs/Idna_C10c_Idem.v = C10_idem_statement2 with two more sampled adapter premises, AdapterUSV and MapPrefix).
+   Case-insensitivity is PROVED for every input (C10_case3 : C10_case_statement2, Proofs/Idna_C10d_Case.v; premises
+   AdapterOK and PassBidi, the latter derived from the sampled bidi classes of a-z 0-9 '-' by C10_pass_bidi). *)
 From RU Require Import Base.Prelude Base.Utf8 Base.U32_c13 Gen.Tables Model.Punycode Model.Uts46
   Proofs.Idna_Sim Proofs.Idna_Api Proofs.Idna_Known Proofs.Idna_Hyp Proofs.Idna_Tables Proofs.Idna_Redisc
   Proofs.Idna_C10_Deny Proofs.Idna_C10_Prefix Proofs.Idna_C10_Inner Proofs.Idna_C10_Walk Proofs.Idna_C10_Config
   Proofs.Idna_C10b_Long Proofs.Idna_C10b_AsciiInner Proofs.Idna_C10b_AsciiWalk Proofs.Idna_C10b_Stmt Proofs.Idna_C10b_LongRej
-  Proofs.Idna_WalkEnc Proofs.Idna_C10c_Puny Proofs.Idna_C10c_Start Proofs.Idna_C10c_Drun Proofs.Idna_C10c_Idem Proofs.Idna_C10c_Example Proofs.Idna_C10c_Refute.
+  Proofs.Idna_WalkEnc Proofs.Idna_C10c_Puny Proofs.Idna_C10c_Start Proofs.Idna_C10c_Drun Proofs.Idna_C10c_Idem Proofs.Idna_C10c_Example Proofs.Idna_C10c_Refute
+  Proofs.Idna_C10d_CaseLabel Proofs.Idna_C10d_CaseLoop Proofs.Idna_C10d_Case Proofs.Idna_C10d_PassBidi.
 
 (* a borrowed result is the input *)
 Theorem C10_borrow : forall A cfg d deny hy dns r, to_ascii A cfg d deny hy dns = Ok (true, r) -> r = d.
@@ -164,6 +167,57 @@ Check C10_idem2_witness :
   to_ascii ctxad false W_idem2_A DENY_EMPTY HAllow DIgnore = Err /\
   map_normalize ctxad [97; 98; 234] = [97; 98; 235] /\ map_normalize ctxad [98; 234] = [98; 234].
 Print Assumptions C10_idem2_witness.
+
+(* ---- case-insensitivity, EVERY input (non-ASCII and xn-- labels included), every option combination, every deny list
+   the API can build, Borrowed and Owned results: the result does not change when ASCII letters of the input change
+   case.  Premises about the adapter only, each sampled on the real idna_adapter by the `adapter` stream: AdapterOK
+   (fields used: ok_nil, ok_case) and PassBidi (the bidi rule accepts every pass-through label; C10_pass_bidi derives it
+   from the sampled bidi classes of a-z, 0-9 and '-').  Without PassBidi the statement is false for an abstract adapter
+   (C10_case_refuted).  This is C10_case_statement2 of Proofs/Idna_C10b_Stmt.v, proved in full ---- *)
+Theorem C10_case3 : forall A cfg, AdapterOK A -> PassBidi A -> forall d d' deny hy dns b r,
+  bytes d -> valid_deny deny -> ascii_case_variant d d' ->
+  to_ascii A cfg d deny hy dns = Ok (b, r) -> exists b', to_ascii A cfg d' deny hy dns = Ok (b', r).
+Proof. exact c10_case3. Qed.
+Check C10_case3 : forall A cfg, AdapterOK A -> PassBidi A -> forall d d' deny hy dns b r,
+  bytes d -> valid_deny deny -> ascii_case_variant d d' ->
+  to_ascii A cfg d deny hy dns = Ok (b, r) -> exists b', to_ascii A cfg d' deny hy dns = Ok (b', r).
+Print Assumptions C10_case3.
+
+Theorem C10_case3_rel : forall A cfg, C10_case_statement2 A cfg.
+Proof. exact c10_case3. Qed.
+Check C10_case3_rel : forall A cfg, C10_case_statement2 A cfg.
+Print Assumptions C10_case3_rel.
+
+(* PassBidi from the bidi classes the harness samples (ok_pass_bidi): a-z can start, end and continue an LTR label,
+   0-9 can end and continue one, '-' can continue one, none of them is a non-spacing mark *)
+Theorem C10_pass_bidi : forall A, PassBits A -> PassBidi A.
+Proof. exact pass_bidi_of_bits. Qed.
+Check C10_pass_bidi : forall A, PassBits A -> PassBidi A.
+Print Assumptions C10_pass_bidi.
+
+(* the premises are satisfiable (adapter lowsan), and a non-trivial pair goes through: "A.B<u-umlaut>cher" and
+   "a.b<u-umlaut>CHER" have the same result "a.xn--bcher-kva" - in the second run the label "a" is passed through,
+   in the first it is processed *)
+Example C10_case3_premises_hold :
+  AdapterOK lowsan /\ PassBits lowsan /\ PassBidi lowsan /\
+  ascii_case_variant W_idem3 W_case3 /\
+  to_ascii lowsan true W_idem3 DENY_URL HCheck DVerify = Ok (false, W_idem3_A) /\
+  to_ascii lowsan true W_case3 DENY_URL HCheck DVerify = Ok (false, W_idem3_A).
+Proof. split; [exact lowsan_ok|]. split; [exact toy_bc_bits|]. split; [exact lowsan_pass_bidi|exact w_case3]. Qed.
+
+(* the two runs of process_inner behind C10_case3: the fail-fast label step on an ASCII case variant of a label returns
+   the same buffer text and flag, with the entries MixedCaseAscii / MixedCasePunycode relabelled (both error modes, every
+   had_errors; only adapter premise: map_normalize does not see the case of ASCII letters) *)
+Theorem C10_case_label : forall A cfg deny, DenyUpper deny -> LdhFree deny ->
+  (forall l l', ascii_case_variant l l' -> map_normalize A l = map_normalize A l') ->
+  forall ff hy he l l', ascii_case_variant l l' -> bytes l ->
+  label_nonempty A cfg ff hy deny l' [] he [] = relab l' (label_nonempty A cfg ff hy deny l [] he []).
+Proof. exact label_nonempty_case. Qed.
+Check C10_case_label : forall A cfg deny, DenyUpper deny -> LdhFree deny ->
+  (forall l l', ascii_case_variant l l' -> map_normalize A l = map_normalize A l') ->
+  forall ff hy he l l', ascii_case_variant l l' -> bytes l ->
+  label_nonempty A cfg ff hy deny l' [] he [] = relab l' (label_nonempty A cfg ff hy deny l [] he []).
+Print Assumptions C10_case_label.
 
 (* the fastest tier of process_inner is invisible: process_inner is the label loop run from the start of the name
    (both error modes, every adapter) *)
